@@ -196,6 +196,15 @@ def main():
                               'is not a violation by itself (the differential correspondence decides), it multiplies the search budget')
     if any(not v.startswith('tied') for v in sf.values()):
         ctx.boost = max(ctx.boost, 4)
+        # search the regenerated model: solve the path conditions on which it differs from the Model for concrete inputs
+        try:
+            import symsearch, corpus as _corpus
+            ex = symsearch.inputs_for(REPO, [f for f, v in sf.items() if v.startswith('differs')], os.path.join(workdir, 'sym'))
+            _corpus.EXTRA_DEC[:], _corpus.EXTRA_AVPS[:] = ex['dec'], ex['avps']
+            cov['symbolic_search'] = {'inputs_from_path_conditions': len(ex['dec']) + len(ex['avps']),
+                                      'how': 'residual goals of the failed tie proofs, arithmetic part solved by z3 (py/symsearch.py)'}
+        except Exception:
+            cov['symbolic_search'] = {'internal': traceback.format_exc()[-300:]}
     if any(v != 'tied' for v in st.values()):
         # a table moved or changed: not a violation by itself (the differential correspondence decides), search harder
         ctx.boost = max(ctx.boost, 4)
